@@ -69,5 +69,41 @@ def d13_ile_chi2():
 CMDS["d13"] = d13_ile_chi2
 
 
+def d15_terminal_pka():
+    """C06: PROPKA's pKa values of the terminal groups never reach apply_pka_values: with PARSE (which has neutral
+    termini) the N-terminus stays charged far above its pKa and the C-terminus stays charged far below its pKa."""
+    from pdb2pqr import main as m
+    from tables import pipeline as pl
+
+    frag = _frag("LEU", 1, 6)
+    rows = []
+    orig = m.run_propka
+
+    def spy(args, b):
+        out = orig(args, b)
+        rows.extend(out[0])
+        return out
+
+    m.run_propka = spy
+    try:
+        hi = pl.run(frag, ["--ff=PARSE", "--titration-state-method=propka", "--with-ph=12"])
+        lo = pl.run(frag, ["--ff=PARSE", "--titration-state-method=propka", "--with-ph=2"])
+    finally:
+        m.run_propka = orig
+    pk_n = [r["pKa"] for r in rows if r["group_label"].startswith("N+")]
+    pk_c = [r["pKa"] for r in rows if r["group_label"].startswith("C-")]
+    if hi["ok"] and lo["ok"] and pk_n and pk_c:
+        n12 = hi["biomolecule"].residues[0]
+        c2 = lo["biomolecule"].residues[-1]
+        if (12 >= pk_n[0] and "NEUTRAL-NTERM" not in n12.patches) or (2 < pk_c[0] and "NEUTRAL-CTERM" not in c2.patches):
+            print(f"STILL-FAILS PARSE: N-terminus pKa {pk_n[0]:.2f}, at pH 12 patches {n12.patches} charge {n12.charge:+.2f}; "
+                  f"C-terminus pKa {pk_c[0]:.2f}, at pH 2 patches {c2.patches} charge {c2.charge:+.2f}")
+            return
+    print("no longer fails")
+
+
+CMDS["d15"] = d15_terminal_pka
+
+
 if __name__ == "__main__":
     CMDS[sys.argv[1]]()
